@@ -127,8 +127,16 @@ Definition run_rt (e : endian) (pos : N) (mode : bytes) (ts : list bytes) : outp
       {| o_model := m; o_spec := s; o_class := class_c02 e top |}
   end.
 
+(* Base.Bytes.words with a linear-time reversal (hostile inputs are long single tokens) *)
+Fixpoint fsplit (l cur : bytes) : list bytes :=
+  match l with
+  | [] => [frev cur]
+  | c :: r => if beq c sp then frev cur :: fsplit r [] else fsplit r (c :: cur)
+  end.
+Definition fwords (l : bytes) : list bytes := filter (fun w => match w with [] => false | _ => true end) (fsplit l []).
+
 Definition run_case (line : bytes) : outp :=
-  match words line with
+  match fwords line with
   | cmd :: ct :: et :: pt :: rest =>
       match N_of_dec pt with
       | None => bad_case
